@@ -27,6 +27,10 @@ package trie
 //@   iface
 //@   trusted
 //@   pure
+//@ func (t MutableForObject) ClearCache()
+//@   iface
+//@   trusted
+//@   modifies *
 // mfo_reset_to: the immutable trie a mutable object trie was last reset to
 //@ smt all (declare-ghost mfo_reset_to Iface)
 //@ func (t MutableForObject) Reset(s)
